@@ -526,7 +526,13 @@ pub fn gen_graceful_burst(rng: &mut Rng, faults: bool, slow_death: bool) -> E1Sc
     let mut sigs = e1::SigAlloc::new();
     let mut steps = vec![Step { gap: 0, op: Op::Start, waiters: 1, inline: rng.chance(1, 2), cancel_after: None, late_clone: None }];
     let grace = *rng.pick(&e1::DURS[..7]);
-    let sig = if rng.chance(1, 10) { 77 } else { sigs.fresh() };
+    // (77: no OS equivalent, sent as SIGTERM; 9: ForceStop as the "graceful" signal - the process dies at once, the
+    // control still holds the normal queue back until that is observed, a restart still follows)
+    let sig = match rng.below(20) {
+        0 | 1 => 77,
+        2 | 3 => 9,
+        _ => sigs.fresh(),
+    };
     let g = match rng.below(3) {
         0 => Op::StopSig { sig, grace },
         1 => Op::RestartSig { sig, grace },
@@ -646,6 +652,11 @@ pub fn oracle_c06(scn: &E1Scn, d: &Digest, stats: &mut Stats) -> Vec<Violation> 
             Some((e, _)) if e == deadline => stats.hit("probe:exit-at-expiry-tie"),
             _ => {}
         }
+        if expected_os_signal(sig) == 9 {
+            // ForceStop as the graceful signal: the process is dead at once; nothing is left for the expiry to do
+            stats.hit("probe:graceful-with-force-stop-signal");
+            continue;
+        }
         // (a process that is slow to die - the slow-death fault - ends up to `lag` after the kill at expiry)
         let lag = scn.children.get(ci.min(scn.children.len().saturating_sub(1))).map(|c| c.kill_lag).unwrap_or(0);
         if !faulty && !ended_by_then && !dropped_early && !delete_now_before(scn, d, u32::MAX) {
@@ -653,7 +664,8 @@ pub fn oracle_c06(scn: &E1Scn, d: &Digest, stats: &mut Stats) -> Vec<Violation> 
                 None => true,
                 Some((e, _)) => e > deadline + lag,
             };
-            let alive_at_expiry = c.exit.map(|e| e.0 > deadline || (e.0 == deadline && e.1 == 1009)).unwrap_or(true);
+            // (an end exactly at the deadline is a tie: it may be the kill at expiry or an earlier SIGKILL taking effect)
+            let alive_at_expiry = c.exit.map(|e| e.0 > deadline).unwrap_or(true);
             if !late && alive_at_expiry && !c.kills.iter().any(|k| k.0 == deadline) {
                 vs.push(Violation::new(
                     "no-kill-at-grace-expiry",
